@@ -179,6 +179,9 @@ def run(ctx):
                 'checks that the printed labels are the expected ones and that exactly the messages on / mentioning / creating / '
                 'destroying that object (resp. of that connection) are listed. A case is one position or one session.')
     rep.assumptions = list(sessbase.ASSUME)
+    # ... and as a real process (file / run mode), compared with the in-process run
+    from props import sessbase as _sb
+    _sb.process_batch(ctx, rep, ['msg', 'counts', 'none', 'new', 'closed'], ctx.pick(10, 100), 1000459)
     return rep
 
 
